@@ -227,6 +227,7 @@ type frameLogger struct {
 	allEffects []uint64
 	failedEffs map[uint64]bool           // effects performed inside a frame that later failed (or inside its descendants)
 	keptEffs   map[uint64]bool           // effects of frames that succeeded all the way up
+	jpIgnored  []string                  // frames whose post join point failed while the frame reported success
 	keptTouch  map[common.Address]bool   // accounts addressed by a frame that succeeded all the way up
 	keptNonce  map[common.Address]uint64 // nonce increments made by creations whose issuing frame succeeded all the way up (or had none)
 	desync     string
@@ -562,6 +563,11 @@ func (l *frameLogger) exitFrame(output []byte, gasUsed uint64, err error) {
 				r := frameJPLog[i]
 				if r.point == string(atypes.POST_CONTRACT_CALL_METHOD) && r.to == fr.att.to {
 					post = fmt.Sprintf("%s/%s/%s", optBytes(r.ret), hexU64(r.left), ferr(r.err))
+					if r.err != nil && err == nil {
+						// C04: a failure reported by the post-call join point is a failure of the frame
+						l.jpIgnored = append(l.jpIgnored, fmt.Sprintf("post_join_point_of_%s_failed_(%s)_but_the_frame_ended_without_error", hexAddr(fr.att.to), ferr(r.err)))
+						err = r.err
+					}
 				}
 			}
 		}
@@ -739,6 +745,7 @@ type fsub struct {
 	overwrite        bool // store over the argument area after the call returned
 	salt             uint64
 	runtime          []byte // creates: what the init code returns
+	emptyInit        bool   // creates: no init code at all (the interpreter returns at once; the account is created with no code)
 	aspect           *aspectScript
 }
 
@@ -808,7 +815,13 @@ func (g *fgen) genBody(depth int) []fact {
 			out = append(out, fact{kind: "sub", sub: g.genSub(depth+1, false)})
 		case k < 95 && depth < 3 && g.creates < 3:
 			g.creates++
-			out = append(out, fact{kind: "create", sub: g.genSub(depth+1, true)})
+			cs := g.genSub(depth+1, true)
+			out = append(out, fact{kind: "create", sub: cs})
+			if cs.emptyInit && !g.standard && g.r.Chance(70) {
+				// a journaled change of the creating frame right after a creation whose interpreter run ended at once
+				g.nextID++
+				out = append(out, fact{kind: "journal", slot: uint64(1 + g.r.Intn(3)), id: 1 + g.nextID%250})
+			}
 		default:
 			g.nextID++
 			out = append(out, fact{kind: "sstore", id: 0x10000 + g.nextID})
@@ -839,6 +852,9 @@ func (g *fgen) genSub(depth int, create bool) *fsub {
 			// rejected for the first byte of what it returned: everything of that frame has to be undone like any other failure
 			s.runtime, s.end = [][]byte{{0xef}, {0xef, 0x00}, {0xef, 0x01, 0x02}}[g.r.Intn(3)], opRETURN
 			s.value = []int{0, 1, 1}[g.r.Intn(3)]
+		}
+		if g.r.Chance(20) {
+			s.emptyInit, s.body, s.end, s.runtime = true, nil, opSTOP, nil
 		}
 		s.addr = g.newAddr(0xb0) // blob holding the init code
 		return s
@@ -939,6 +955,9 @@ func (g *fgen) compileBody(body []fact, end byte, endLen int, runtime []byte, is
 		case "create":
 			s := f.sub
 			init := g.compileBody(s.body, s.end, s.endLen, s.runtime, true)
+			if s.emptyInit {
+				init = []byte{}
+			}
 			g.blobs[s.addr] = init
 			// EXTCODECOPY(blob, 0x600, 0, len)
 			a.PushU(uint64(len(init))).PushU(0).PushU(0x600).PushBytes(s.addr[:]).Op(0x3c)
@@ -1176,6 +1195,10 @@ func runFrameCase(r *Rng, em *Emitter, label string, tags string) {
 		input := r.Bytes([]int{0, 4, 36}[r.Intn(3)])
 		value := big.NewInt(int64([]int{0, 0, 3}[r.Intn(3)]))
 		gas := uint64(30_000_000)
+		if r.Chance(12) {
+			// gas limits around and above 2^63 (the Aspect runtime meters in int64; vm/runtime's default limit is MaxUint64)
+			gas = []uint64{1<<63 - 1, 1 << 63, 1<<63 + 12345, ^uint64(0), ^uint64(0) - 7}[r.Intn(5)]
+		}
 		a := &attempt{kind: "call", caller: callerAddr, to: root, value: value, input: input, gas: gas}
 		lg.factsFor(a)
 		lg.topAttempt = a
@@ -1423,7 +1446,9 @@ func runFrameCase(r *Rng, em *Emitter, label string, tags string) {
 	sort.Strings(leaked)
 	sort.Strings(lost)
 	v := "ok"
-	if len(leaked)+len(lost) > 0 {
+	if len(lg.jpIgnored) > 0 {
+		v = lg.jpIgnored[0]
+	} else if len(leaked)+len(lost) > 0 {
 		v = "leaked=" + listStr(leaked) + "_lost=" + listStr(lost)
 	}
 	em.Op("C04", "S atomic", v)
